@@ -142,6 +142,7 @@ def run(ctx):
                 ctx.violation("prior/boundary/" + pr[0], "log-prior %r at the boundary point %r of %s, the density there gives %r" % (lp, x, pr, w), case)
                 return
             ctx.count("boundary_points")
+    live = {}
     for i in range(n):
         k = 1 if i % 3 else rng.randint(2, 4)
         names = ["p%d" % j for j in range(k)]
@@ -167,6 +168,23 @@ def run(ctx):
         lp = P.check_prior(dict(vals))
         lp = float(lp)
         ctx.evaluated()
+        # the same evaluation on an interface that lives through the whole run and whose prior is revised in between
+        # (by assignment, or by editing the dictionary it holds): the log-prior is that of the prior named *now*
+        if k not in live:
+            live[k] = DeterministicInference(names, M, dict(priors))
+        L = live[k]
+        if i % 2:
+            L.prior = dict(priors)
+        else:
+            for nm in names:
+                L.prior[nm] = priors[nm]
+        lp_live = float(L.check_prior(dict(vals)))
+        ctx.evaluated()
+        if lp_live != lp and not (math.isnan(lp_live) and math.isnan(lp)):
+            ctx.violation("prior/live-interface/" + "+".join(sorted(set(p[0] for p in priors.values()))),
+                          "an interface evaluated earlier under other priors gives log-prior %r, a fresh interface with the same priors %r" % (lp_live, lp), case)
+            continue
+        ctx.count("live_interface_revisions")
         # ---------------- oracle: log of the named density, summed; rejected outside the support
         if inside_all:
             want = sum(float(scipy_logpdf([q for q in priors[nm] if q != "positive"], vals[nm])) for nm in names)
@@ -246,6 +264,6 @@ def describe(ctx):
     rule = ("all seven families x parameter ranges x values inside the support (incl. within 1e-6 of the boundary) and outside it, "
             "single parameters (each family in turn) and vectors of 2..4 parameters with mixed families, with and without the "
             "'positive' flag: PIDInterface.check_prior against (oracle) the sum of scipy.stats log-densities / rejection, and "
-            "against the Lean model run in Float (1e-12); posterior at an out-of-support theta. distinct = (families, inside?, flags).")
+            "against the Lean model run in Float (1e-12); every case also on an interface kept alive through the run whose prior is revised before each evaluation; posterior at an out-of-support theta. distinct = (families, inside?, flags).")
     return rule, {}, False, ["scipy.special.gamma/beta are taken to compute the Gamma and Beta functions (their values are inputs of the model)",
                              "far-tail in-support values where the density underflows to 0 are excluded (|log pdf| < 600)"]
